@@ -287,7 +287,7 @@ func (db *Database) SearchUniversal(query string, options SearchOptions) []Searc
 	// If no terms after processing, try fuzzy search as fallback
 	if len(terms) == 0 {
 		if options.UseFuzzy {
-			return db.performFuzzySearch(query, options)
+			return db.limitResults(db.performFuzzySearch(query, options), options.Limit)
 		}
 		return nil
 	}
@@ -305,7 +305,7 @@ func (db *Database) SearchUniversal(query string, options SearchOptions) []Searc
 	// If no BM25F results, try fuzzy search as fallback for typos
 	if len(scores) == 0 {
 		if options.UseFuzzy {
-			return db.performFuzzySearch(query, options)
+			return db.limitResults(db.performFuzzySearch(query, options), options.Limit)
 		}
 		return nil
 	}
